@@ -14,9 +14,9 @@ use litep2p::{
     error::{AddressError, DialError, DnsError, NegotiationError, ParseError},
     transport::{
         verif::{
-            take_add_order, take_evicted, AddressType, DnsType, GetSocketAddr, SupportedTransport,
-            TcpAddress, TransportManager, TransportManagerBuilder, VerifCall, VerifScript,
-            WebSocketAddress,
+            take_add_calls, take_add_order, take_evicted, AddressType, DnsType, GetSocketAddr,
+            SupportedTransport, TcpAddress, TransportManager, TransportManagerBuilder, VerifCall,
+            VerifScript, WebSocketAddress,
         },
         ConnectionLimitsConfig,
     },
@@ -31,6 +31,10 @@ use std::{
     path::Path,
 };
 
+/// feat_quic of the case header: this build has litep2p's quic feature
+const FQ: u64 = cfg!(feature = "quic") as u64;
+/// the tag of a dial(peer) operation with error kinds: three lists in the QUIC build
+const DIAL_TAG: u64 = if cfg!(feature = "quic") { 14 } else { 9 };
 const NPEERS: u64 = 8;
 const NOTHER: u64 = 8;
 const MAXCOMPS: usize = 8;
@@ -77,6 +81,42 @@ fn ip6_of(class: u64, id: u64) -> Ipv6Addr {
     }
 }
 
+/// A concrete IPv4 address outside the mapped ranges (wire tag 12; `raw4_ok` of Glue.v).
+fn raw4_ok(ip: u64) -> bool {
+    let (o0, o1) = ((ip >> 24) & 255, (ip >> 16) & 255);
+    ip < (1 << 32) && !(ip == 0 || (o0 == 127 && o1 == 1) || (o0 == 10 && o1 == 7) || (o0 == 8 && o1 == 8))
+}
+
+/// The compact code of a concrete IPv6 address s0:s1:0:..:val:..:0 (wire tag 13): val sits in
+/// segment pos (2..=7), pos = 0 when val = 0.
+fn raw6_code(s0: u64, s1: u64, pos: u64, val: u64) -> u64 {
+    ((s0 * 65536 + s1) * 8 + pos) * 65536 + val
+}
+
+fn raw6_segments(arg: u64) -> [u16; 8] {
+    let (s0, s1, pos, val) = (arg >> 35, (arg >> 19) & 65535, (arg >> 16) & 7, arg & 65535);
+    let mut s = [0u16; 8];
+    s[0] = s0 as u16;
+    s[1] = s1 as u16;
+    if val != 0 {
+        s[pos as usize] = val as u16;
+    }
+    s
+}
+
+/// `raw6_ok` of Glue.v: canonical code of an address outside the mapped ranges.
+fn raw6_ok(arg: u64) -> bool {
+    let (s0, s1, pos, val) = (arg >> 35, (arg >> 19) & 65535, (arg >> 16) & 7, arg & 65535);
+    let s = raw6_segments(arg);
+    let ip = Ipv6Addr::from(s);
+    arg < (1 << 51)
+        && (if val == 0 { pos == 0 } else { pos >= 2 })
+        && !(ip == Ipv6Addr::UNSPECIFIED
+            || ip == Ipv6Addr::LOCALHOST
+            || (s0 == 0xfd00 && pos == 6 && val == 7)
+            || (s0 == 0x2001 && s1 == 0x4860))
+}
+
 fn abs_ip(ip: &IpAddr) -> Option<Comp> {
     match ip {
         IpAddr::V4(v) => {
@@ -87,7 +127,7 @@ fn abs_ip(ip: &IpAddr) -> Option<Comp> {
                 (127, 1) => Some((0, 65536 + id)),
                 (10, 7) => Some((0, 2 * 65536 + id)),
                 (8, 8) => Some((0, 3 * 65536 + id)),
-                _ => None,
+                _ => Some((12, u32::from(*v) as u64)),
             }
         }
         IpAddr::V6(v) => {
@@ -102,7 +142,13 @@ fn abs_ip(ip: &IpAddr) -> Option<Comp> {
             } else if s[0] == 0x2001 && s[1] == 0x4860 {
                 Some((1, 3 * 65536 + id))
             } else {
-                None
+                // s0:s1:0:..:val:..:0
+                let nz: Vec<usize> = (2..8).filter(|i| s[*i] != 0).collect();
+                match nz.as_slice() {
+                    [] => Some((13, raw6_code(s[0] as u64, s[1] as u64, 0, 0))),
+                    [i] => Some((13, raw6_code(s[0] as u64, s[1] as u64, *i as u64, s[*i] as u64))),
+                    _ => None,
+                }
             }
         }
     }
@@ -142,6 +188,8 @@ pub(crate) fn protocol_of_peers(peers: &[PeerId], c: (u64, u64)) -> Option<Proto
         8 if arg == 0 => Protocol::Wss(Cow::Borrowed("/")),
         9 if arg == 0 => Protocol::QuicV1,
         10 if (arg as usize) < peers.len() => Protocol::P2p(peers[arg as usize].into()),
+        12 if raw4_ok(arg) => Protocol::Ip4(Ipv4Addr::from(arg as u32)),
+        13 if raw6_ok(arg) => Protocol::Ip6(Ipv6Addr::from(raw6_segments(arg))),
         11 if arg < NOTHER => match arg {
             0 => Protocol::Quic,
             1 => Protocol::Http,
@@ -212,7 +260,7 @@ fn enc_abs(a: &Abs, out: &mut Vec<u64>) {
 
 /// The order of `maddr_key` in Glue.v: shorter first, then digit-wise.
 fn sort_key(a: &Abs) -> (usize, Vec<u64>) {
-    (a.len(), a.iter().map(|(t, x)| t * 1_048_576 + x + 1).collect())
+    (a.len(), a.iter().map(|(t, x)| t * (1 << 52) + x + 1).collect())
 }
 
 // ---------------------------------------------------------------- DialError kinds
@@ -328,7 +376,7 @@ fn error_of_code(w: &World, code: u64, salt: u64) -> Option<DialError> {
                 7 => NegotiationError::StateMismatch,
                 8 => NegotiationError::PeerIdMismatch(peer(salt), peer(salt / 8 + 1)),
                 #[cfg(feature = "quic")]
-                9 if sub == 0 => NegotiationError::Quic(litep2p::error::QuicError::InvalidCertificate),
+                9 => NegotiationError::Quic(litep2p::transport::quic::verif::quic_error(sub as usize, salt as usize)?),
                 10 => NegotiationError::WebSocket(if salt % 2 == 0 {
                     tokio_tungstenite::tungstenite::Error::ConnectionClosed
                 } else {
@@ -356,7 +404,7 @@ fn all_error_codes(w: &World) -> Vec<u64> {
     let codes: Vec<u64> = (0..64 * 8).filter(|c| error_of_code(w, *c, 0).is_some()).collect();
     let gated_off = |path: &[u64]| {
         gen_errors::GATES.iter().any(|(p, g)| {
-            path.starts_with(p) && !(*g == 2 || (*g == 1 && cfg!(feature = "quic") && path.len() == p.len() + 1 && path[p.len()] == 0))
+            path.starts_with(p) && !(*g == 2 || (*g == 1 && cfg!(feature = "quic")))
         })
     };
     let mut expected = 0usize;
@@ -509,6 +557,8 @@ struct Node {
     manager: TransportManager,
     tcp: Option<VerifScript>,
     ws: Option<VerifScript>,
+    /// only in the build with the `quic` feature
+    quic: Option<VerifScript>,
     /// (filler peer, connection id) of the established outbound connections
     held: Vec<(PeerId, usize)>,
     fillers: u64,
@@ -523,7 +573,7 @@ impl Node {
 
     /// establish (and have accepted) an outbound connection to a fresh peer
     fn hold_one(&mut self) -> bool {
-        let Some(script) = self.tcp.clone().or(self.ws.clone()) else {
+        let Some(script) = self.tcp.clone().or(self.ws.clone()).or(self.quic.clone()) else {
             return false;
         };
         let before = self.outgoing();
@@ -572,10 +622,16 @@ fn dial_code(r: &Result<(), Error>) -> u64 {
 /// (HashSet insertion order, evicted records, order of `addresses(limit)`, address lists given
 /// to `open()`) filled in, and the trace. `None` if the case is not well-formed.
 fn run_case(rt: &Runtime, w: &World, c: &[u64]) -> Option<(Vec<u64>, Vec<u64>)> {
+    if c.first() == Some(&2) {
+        return run_lp_case(w, &c[1..]).map(|(mut case, trace)| {
+            case.insert(0, 2);
+            (case, trace)
+        });
+    }
     let mut r = Reader { c, i: 0 };
     let flags: Vec<u64> = (0..5).map(|_| r.n()).collect::<Option<_>>()?;
     let (fw, fq, et, ew, eq) = (flags[0] != 0, flags[1] != 0, flags[2] != 0, flags[3] != 0, flags[4] != 0);
-    if !fw || fq || eq {
+    if !fw || fq != cfg!(feature = "quic") || (eq && !fq) {
         return None;
     }
     let local = r.peer()?;
@@ -592,10 +648,23 @@ fn run_case(rt: &Runtime, w: &World, c: &[u64]) -> Option<(Vec<u64>, Vec<u64>)> 
         .build();
     let tcp = et.then(|| manager.verif_register_scripted_as(SupportedTransport::Tcp));
     let ws = ew.then(|| manager.verif_register_scripted_as(SupportedTransport::WebSocket));
+    #[cfg(feature = "quic")]
+    let quic = eq.then(|| manager.verif_register_scripted_as(SupportedTransport::Quic));
+    #[cfg(not(feature = "quic"))]
+    let quic: Option<VerifScript> = None;
     let mut handle = manager.verif_handle();
-    let mut node = Node { manager, tcp, ws, held: Vec::new(), fillers: 0, limited: max_out != 0 };
+    // a protocol's TransportService on this manager (Kademlia and user protocols add addresses through it)
+    let mut service = manager.register_protocol(
+        litep2p::types::protocol::ProtocolName::from("/verif/c10/1"),
+        Vec::new(),
+        litep2p::codec::ProtocolCodec::Identity(32),
+        std::time::Duration::from_secs(5),
+        litep2p::protocol::SubstreamKeepAlive::Yes,
+    );
+    let mut node = Node { manager, tcp, ws, quic, held: Vec::new(), fillers: 0, limited: max_out != 0 };
     let _ = take_evicted();
     let _ = take_add_order();
+    let _ = take_add_calls();
 
     let nops = r.count()?;
     case.push(nops as u64);
@@ -613,6 +682,8 @@ fn run_case(rt: &Runtime, w: &World, c: &[u64]) -> Option<(Vec<u64>, Vec<u64>)> 
                 case.push(peer);
                 enc_list(&addrs, &mut case);
                 let n = handle.add_known_address(&w.peers[peer as usize], real.into_iter());
+                let calls = take_add_calls();
+                assert!(calls.len() == 1 && calls[0].0 == n, "one call, the count it returned");
                 let order: Vec<Abs> = take_add_order().iter().map(|a| abs_of(w, a)).collect();
                 enc_list(&order, &mut case);
                 enc_list(&evicted(w), &mut case);
@@ -690,6 +761,8 @@ fn run_case(rt: &Runtime, w: &World, c: &[u64]) -> Option<(Vec<u64>, Vec<u64>)> 
                 out.extend([4, sup as u64, rt]);
                 enc_parsed(w, TcpAddress::multiaddr_to_socket_address(&real), &mut out);
                 enc_parsed(w, WebSocketAddress::multiaddr_to_socket_address(&real), &mut out);
+                #[cfg(feature = "quic")]
+                enc_parsed(w, litep2p::transport::quic::verif::QuicListener::get_socket_address(&real), &mut out);
             }
             5 => {
                 let a = r.maddr()?;
@@ -721,10 +794,10 @@ fn run_case(rt: &Runtime, w: &World, c: &[u64]) -> Option<(Vec<u64>, Vec<u64>)> 
                 assert!(!node.limited || node.outgoing() == node.held.len(), "limit counter differs");
                 out.extend([6, node.held.len() as u64]);
             }
-            7 | 9 => {
+            7 | 9 | 14 => {
                 let peer = r.peer()?;
                 let outcome = r.n()?;
-                let errs: Vec<u64> = if tag == 9 {
+                let errs: Vec<u64> = if tag != 7 {
                     let n = r.count()?;
                     (0..n).map(|_| r.n()).collect::<Option<_>>()?
                 } else {
@@ -732,6 +805,10 @@ fn run_case(rt: &Runtime, w: &World, c: &[u64]) -> Option<(Vec<u64>, Vec<u64>)> 
                 };
                 let _ = r.maddrs()?;
                 let _ = r.maddrs()?;
+                if tag == 14 {
+                    let _ = r.maddrs()?;
+                }
+                let nlists = if tag == 14 { 3 } else { 2 };
                 if outcome >= 1000 || errs.len() >= 1000 {
                     return None;
                 }
@@ -747,7 +824,7 @@ fn run_case(rt: &Runtime, w: &World, c: &[u64]) -> Option<(Vec<u64>, Vec<u64>)> 
                     }
                 };
                 case.extend([peer, outcome]);
-                if tag == 9 {
+                if tag != 7 {
                     case.push(errs.len() as u64);
                     case.extend(errs.iter().copied());
                 }
@@ -758,32 +835,30 @@ fn run_case(rt: &Runtime, w: &World, c: &[u64]) -> Option<(Vec<u64>, Vec<u64>)> 
                     let installed = match TransportManager::verif_route(&real_of(w, a).expect("stored")) {
                         Some(SupportedTransport::Tcp) => et,
                         Some(SupportedTransport::WebSocket) => ew,
-                        // only when the harness is built with its optional `quic` feature (C07's QUIC stream)
                         #[cfg(feature = "quic")]
-                        Some(SupportedTransport::Quic) => false,
+                        Some(SupportedTransport::Quic) => eq,
                         None => false,
-                        // only when the harness is built with its optional `quic` feature
-                        #[cfg(feature = "quic")]
-                        Some(SupportedTransport::Quic) => false,
                     };
                     installed && a.last() == Some(&(10, peer))
                 });
                 if !routable {
-                    enc_list(&[], &mut case);
-                    enc_list(&[], &mut case);
+                    for _ in 0..nlists {
+                        enc_list(&[], &mut case);
+                    }
                     out.extend([7, 8]);
                     continue;
                 }
                 let res = rt.block_on(node.manager.dial(w.peers[peer as usize]));
                 let code = dial_code(&res);
                 if code != 0 {
-                    enc_list(&[], &mut case);
-                    enc_list(&[], &mut case);
+                    for _ in 0..nlists {
+                        enc_list(&[], &mut case);
+                    }
                     out.extend([7, code]);
                     continue;
                 }
                 let mut lists: Vec<(Option<usize>, Vec<Multiaddr>)> = Vec::new();
-                for script in [&node.tcp, &node.ws] {
+                for script in [&node.tcp, &node.ws, &node.quic] {
                     let mut opened = script.as_ref().map(|s| s.take_opened()).unwrap_or_default();
                     assert!(opened.len() <= 1, "one open() per transport and dial");
                     match opened.pop() {
@@ -795,6 +870,11 @@ fn run_case(rt: &Runtime, w: &World, c: &[u64]) -> Option<(Vec<u64>, Vec<u64>)> 
                     lists.iter().map(|(_, l)| l.iter().map(|a| abs_of(w, a)).collect()).collect();
                 enc_list(&abs[0], &mut case);
                 enc_list(&abs[1], &mut case);
+                if nlists == 3 {
+                    enc_list(&abs[2], &mut case);
+                } else {
+                    assert!(abs[2].is_empty(), "a QUIC list on a two-list dial operation");
+                }
                 out.extend([7, 0]);
                 for l in &abs {
                     out.push(l.len() as u64);
@@ -805,10 +885,10 @@ fn run_case(rt: &Runtime, w: &World, c: &[u64]) -> Option<(Vec<u64>, Vec<u64>)> 
                     }
                 }
                 // the outcome of the attempt
-                let scripts = [node.tcp.clone(), node.ws.clone()];
-                let total = lists[0].1.len() + lists[1].1.len();
+                let scripts = [node.tcp.clone(), node.ws.clone(), node.quic.clone()];
+                let total = lists[0].1.len() + lists[1].1.len() + lists[2].1.len();
                 assert!(total > 0, "dial() returned Ok without opening anything");
-                let offsets = [0usize, lists[0].1.len()];
+                let offsets = [0usize, lists[0].1.len(), lists[0].1.len() + lists[1].1.len()];
                 if outcome == 0 {
                     for (i, (conn, l)) in lists.iter().enumerate() {
                         if let (Some(conn), Some(script)) = (conn, &scripts[i]) {
@@ -823,7 +903,13 @@ fn run_case(rt: &Runtime, w: &World, c: &[u64]) -> Option<(Vec<u64>, Vec<u64>)> 
                     node.manager.verif_drain();
                 } else {
                     let j = (outcome as usize - 1) % total;
-                    let (i, pos) = if j < lists[0].1.len() { (0, j) } else { (1, j - lists[0].1.len()) };
+                    let (i, pos) = if j < offsets[1] {
+                        (0, j)
+                    } else if j < offsets[2] {
+                        (1, j - offsets[1])
+                    } else {
+                        (2, j - offsets[2])
+                    };
                     let (conn, l) = (lists[i].0.expect("opened"), &lists[i].1);
                     let script = scripts[i].clone().expect("installed");
                     let errors = l[..pos]
@@ -878,7 +964,7 @@ fn run_case(rt: &Runtime, w: &World, c: &[u64]) -> Option<(Vec<u64>, Vec<u64>)> 
                     Some((10, p)) => Some(*p),
                     _ => None,
                 };
-                for script in [&node.tcp, &node.ws].into_iter().flatten() {
+                for script in [&node.tcp, &node.ws, &node.quic].into_iter().flatten() {
                     let _ = script.take_calls();
                 }
                 let result = rt.block_on(node.manager.dial_address(real.clone()));
@@ -896,7 +982,7 @@ fn run_case(rt: &Runtime, w: &World, c: &[u64]) -> Option<(Vec<u64>, Vec<u64>)> 
                     let peer = w.peers[q as usize];
                     // which transport was asked to dial, and with which connection id
                     let mut dialed = Vec::new();
-                    for (i, script) in [&node.tcp, &node.ws].into_iter().enumerate() {
+                    for (i, script) in [&node.tcp, &node.ws, &node.quic].into_iter().enumerate() {
                         if let Some(script) = script {
                             for call in script.take_calls() {
                                 if let VerifCall::Dial(conn) = call {
@@ -932,6 +1018,77 @@ fn run_case(rt: &Runtime, w: &World, c: &[u64]) -> Option<(Vec<u64>, Vec<u64>)> 
                     dump(&store_of(w, &node.manager, q), &mut out);
                 }
             }
+            15 => {
+                // dial_address while every transport's dial() returns an error
+                let a = r.maddr()?;
+                let _ = r.maddrs()?;
+                let real = real_of(w, &a)?;
+                enc_abs(&a, &mut case);
+                let named = match a.last() {
+                    Some((10, p)) => Some(*p),
+                    _ => None,
+                };
+                for script in [&node.tcp, &node.ws, &node.quic].into_iter().flatten() {
+                    let _ = script.take_calls();
+                    script.set_failures(false, true, false, false);
+                }
+                let result = rt.block_on(node.manager.dial_address(real.clone()));
+                let mut asked = Vec::new();
+                for (i, script) in [&node.tcp, &node.ws, &node.quic].into_iter().enumerate() {
+                    if let Some(script) = script {
+                        script.set_failures(false, false, false, false);
+                        for call in script.take_calls() {
+                            if let VerifCall::Dial(_) = call {
+                                asked.push(i);
+                            }
+                        }
+                    }
+                }
+                let code = match &result {
+                    // the scripted transport's refusal
+                    Err(Error::ConnectionDoesntExist(_)) if asked.len() == 1 => 0,
+                    Err(Error::ConnectionLimit(_)) => 1,
+                    Err(Error::TriedToDialSelf) => 2,
+                    Err(Error::AddressError(AddressError::PeerIdMissing)) => 6,
+                    Err(Error::TransportNotSupported(_)) => 7,
+                    _ => 99,
+                };
+                out.extend([10, code]);
+                if code == 0 {
+                    let q = named.expect("dialed an address without a peer id");
+                    out.extend([asked[0] as u64, q]);
+                    let state = node.manager.verif_peer_state(&w.peers[q as usize]);
+                    assert!(state[0] == 0, "peer not disconnected after the refused dial: {state:?}");
+                    assert!(!node.limited || node.outgoing() == node.held.len(), "limit counter differs");
+                } else {
+                    assert!(asked.is_empty(), "a refused address reached a transport");
+                }
+                enc_list(&evicted(w), &mut case);
+                out.push(0);
+                if let Some(q) = named {
+                    dump(&store_of(w, &node.manager, q), &mut out);
+                }
+            }
+            13 => {
+                // TransportService::add_known_address (returns nothing: the count is the one the
+                // handle's add_known_address computed for this call)
+                let peer = r.peer()?;
+                let addrs = r.maddrs()?;
+                let _ = r.maddrs()?;
+                let _ = r.maddrs()?;
+                let real: Vec<Multiaddr> = addrs.iter().map(|a| real_of(w, a)).collect::<Option<_>>()?;
+                case.push(peer);
+                enc_list(&addrs, &mut case);
+                service.add_known_address(&w.peers[peer as usize], real.into_iter());
+                let calls = take_add_calls();
+                assert!(calls.len() == 1, "one add_known_address call on the handle per service call");
+                let order: Vec<Abs> = take_add_order().iter().map(|a| abs_of(w, a)).collect();
+                assert!(order.len() == calls[0].0, "count and insertion log differ");
+                enc_list(&order, &mut case);
+                enc_list(&evicted(w), &mut case);
+                out.extend([0, calls[0].0 as u64, 0]);
+                dump(&store_of(w, &node.manager, peer), &mut out);
+            }
             11 | 12 => {
                 let a = r.maddr()?;
                 let real = real_of(w, &a)?;
@@ -961,6 +1118,357 @@ fn run_case(rt: &Runtime, w: &World, c: &[u64]) -> Option<(Vec<u64>, Vec<u64>)> 
     Some((case, out))
 }
 
+// ---------------------------------------------------------------- concrete IP addresses
+
+/// The IPv4 ranges that `ip_network` 0.4.1 / std treat specially (base, prefix length), from the
+/// source of `Ipv4Network::is_global` and the predicates it calls.
+const V4_RANGES: &[([u8; 4], u32)] = &[
+    ([0, 0, 0, 0], 8),
+    ([10, 0, 0, 0], 8),
+    ([100, 64, 0, 0], 10),
+    ([127, 0, 0, 0], 8),
+    ([169, 254, 0, 0], 16),
+    ([172, 16, 0, 0], 12),
+    ([192, 0, 0, 0], 24),
+    ([192, 0, 2, 0], 24),
+    ([192, 168, 0, 0], 16),
+    ([198, 18, 0, 0], 15),
+    ([198, 51, 100, 0], 24),
+    ([203, 0, 113, 0], 24),
+    ([224, 0, 0, 0], 4),
+    ([240, 0, 0, 0], 4),
+];
+
+/// First, last and neighbouring addresses of every special range, the two exceptions inside
+/// 192.0.0.0/24 with their neighbours, and one address of every /8.
+fn v4_boundaries() -> Vec<u64> {
+    let mut v: Vec<u64> = Vec::new();
+    for (base, len) in V4_RANGES {
+        let first = u32::from(Ipv4Addr::from(*base)) as u64;
+        let last = first + (1u64 << (32 - len)) - 1;
+        for x in [first.wrapping_sub(1), first, first + 1, last - 1, last, last + 1] {
+            if x < (1 << 32) {
+                v.push(x);
+            }
+        }
+    }
+    for d in 7..=12u64 {
+        v.push((192 << 24) + d);
+    }
+    for a in 0..256u64 {
+        v.push((a << 24) + (1 << 16) + (2 << 8) + 3);
+        v.push((a << 24) + (200 << 16));
+    }
+    v.push((1u64 << 32) - 1);
+    v.push((1u64 << 32) - 2);
+    v.retain(|x| raw4_ok(*x));
+    v.sort();
+    v.dedup();
+    v
+}
+
+/// IPv6: the neighbourhood of ::, ::1, fc00::/7, fe80::/10, fec0::/10, 2001:db8::/32, every
+/// multicast scope (with and without flags), and every value of the first byte.
+fn v6_boundaries() -> Vec<u64> {
+    let mut v: Vec<u64> = Vec::new();
+    // around :: and ::1
+    for (pos, val) in [(7u64, 2u64), (7, 3), (7, 0xffff), (6, 1), (5, 1), (2, 1), (7, 0x100)] {
+        v.push(raw6_code(0, 0, pos, val));
+    }
+    v.push(raw6_code(1, 0, 0, 0));
+    v.push(raw6_code(0, 1, 0, 0));
+    v.push(raw6_code(1, 0, 7, 1));
+    v.push(raw6_code(0, 0xffff, 7, 1));
+    // prefixes on the first segment
+    for (base, len) in [(0xfc00u64, 7u32), (0xfe80, 10), (0xfec0, 10), (0xff00, 8)] {
+        let last = base + (1u64 << (16 - len)) - 1;
+        for s0 in [base - 1, base, base + 1, last - 1, last, last + 1] {
+            if s0 < 65536 {
+                v.push(raw6_code(s0, 0, 0, 0));
+                v.push(raw6_code(s0, 0, 7, 1));
+                v.push(raw6_code(s0, 0x1234, 3, 0x5678));
+            }
+        }
+    }
+    // multicast scopes and flags
+    for flags in [0u64, 1, 3, 0xf] {
+        for scope in 0..16u64 {
+            v.push(raw6_code(0xff00 + flags * 16 + scope, 0, 7, 1));
+        }
+    }
+    // documentation 2001:db8::/32
+    for (s0, s1) in [(0x2001u64, 0xdb7u64), (0x2001, 0xdb8), (0x2001, 0xdb9), (0x2000, 0xdb8), (0x2002, 0xdb8), (0x2001, 0)] {
+        v.push(raw6_code(s0, s1, 0, 0));
+        v.push(raw6_code(s0, s1, 7, 1));
+        v.push(raw6_code(s0, s1, 2, 0xffff));
+    }
+    // every first byte
+    for b in 0..256u64 {
+        v.push(raw6_code(b << 8, 0, 7, 1));
+        v.push(raw6_code((b << 8) + 0xff, 0xffff, 4, 0x8000));
+    }
+    v.retain(|x| raw6_ok(*x));
+    v.sort();
+    v.dedup();
+    v
+}
+
+/// Number of systematic classification cases at the start of every run (after the error sweep).
+const IP_SWEEP_CHUNK: usize = 320;
+
+fn ip_sweep_hosts() -> Vec<Comp> {
+    let mut hosts: Vec<Comp> = vec![(0, 0), (1, 0), (1, 65536), (0, 65536 + 7), (0, 2 * 65536 + 7), (0, 3 * 65536 + 7),
+                                    (1, 2 * 65536 + 7), (1, 3 * 65536 + 7)];
+    hosts.extend(v4_boundaries().into_iter().map(|x| (12u64, x)));
+    hosts.extend(v6_boundaries().into_iter().map(|x| (13u64, x)));
+    hosts
+}
+
+fn ip_sweep_cases() -> usize {
+    ip_sweep_hosts().len().div_ceil(IP_SWEEP_CHUNK)
+}
+
+/// Classification case `j`: the node listens on /ip4/0.0.0.0/tcp/30 (so a loopback address on
+/// port 30 is local). For every address b of the chunk: supported_transport and the transports'
+/// parsers on /b/tcp/30/p2p/<p> (an unspecified b is refused), add_known_address of it (refused
+/// when b is unspecified or loopback; remembered with the public bonus exactly when b is global).
+fn ip_sweep_case(j: usize) -> Vec<u64> {
+    let hosts = ip_sweep_hosts();
+    let chunk = &hosts[j * IP_SWEEP_CHUNK..((j + 1) * IP_SWEEP_CHUNK).min(hosts.len())];
+    let mut ops: Vec<Vec<u64>> = vec![vec![5, 2, 0, 0, 5, 30]];
+    for (i, h) in chunk.iter().enumerate() {
+        let peer = 1 + (i as u64 % (NPEERS - 1));
+        let a: Abs = vec![*h, (5, 30), (10, peer)];
+        let mut op = vec![4];
+        enc_abs(&a, &mut op);
+        ops.push(op);
+        let mut op = vec![0, peer, 1];
+        enc_abs(&a, &mut op);
+        op.extend([0, 0]);
+        ops.push(op);
+    }
+    let mut c = vec![1, FQ, 1, 1, FQ, 0, 0, ops.len() as u64];
+    for op in ops {
+        c.extend(op);
+    }
+    c
+}
+
+// ---------------------------------------------------------------- Litep2p-level cases
+
+const LP_PORTS: u64 = 10000;
+
+/// abstract port -> real port of the listen sockets of one Litep2p-level case
+struct PortMap(Vec<(u64, u16)>);
+
+impl PortMap {
+    fn real(&self, m: &Multiaddr) -> Multiaddr {
+        m.iter()
+            .map(|p| match p {
+                Protocol::Tcp(x) => Protocol::Tcp(
+                    self.0.iter().find(|(a, _)| *a == x as u64).map(|(_, r)| *r).unwrap_or(x),
+                ),
+                other => other,
+            })
+            .collect()
+    }
+    fn abs(&self, m: &Multiaddr) -> Multiaddr {
+        m.iter()
+            .map(|p| match p {
+                Protocol::Tcp(x) => Protocol::Tcp(
+                    self.0.iter().find(|(_, r)| *r == x).map(|(a, _)| *a as u16).unwrap_or(x),
+                ),
+                other => other,
+            })
+            .collect()
+    }
+}
+
+/// A port that is free right now on the loopback interface (a bind can still fail later: the
+/// caller retries).
+fn free_port() -> u16 {
+    loop {
+        let l = std::net::TcpListener::bind("127.0.0.1:0").expect("bind");
+        let p = l.local_addr().expect("addr").port();
+        if p as u64 >= 2 * LP_PORTS {
+            return p;
+        }
+    }
+}
+
+struct AddOp {
+    peer: u64,
+    addrs: Vec<Abs>,
+}
+
+/// One Litep2p-level case (format: Glue.v): `Litep2p::new` with configured known addresses and
+/// real TCP / WebSocket listeners on loopback addresses, then `Litep2p::add_known_address`.
+fn run_lp_case(w: &World, c: &[u64]) -> Option<(Vec<u64>, Vec<u64>)> {
+    use litep2p::{config::ConfigBuilder, Litep2p};
+    let mut r = Reader { c, i: 0 };
+    let nk = r.n()? as usize;
+    let flags: Vec<u64> = (0..5).map(|_| r.n()).collect::<Option<_>>()?;
+    let (fw, fq, et, ew, eq) = (flags[0] != 0, flags[1] != 0, flags[2] != 0, flags[3] != 0, flags[4] != 0);
+    if !fw || fq != cfg!(feature = "quic") || eq || !(et || ew) {
+        return None;
+    }
+    let local = r.peer()?;
+    if r.n()? != 0 {
+        return None;
+    }
+    let header: Vec<u64> = c[1..r.i].to_vec();
+    let nops = r.count()?;
+    // the operations: nk additions (configuration), listen addresses, additions
+    let mut known: Vec<AddOp> = Vec::new();
+    let mut listens: Vec<Abs> = Vec::new();
+    let mut later: Vec<AddOp> = Vec::new();
+    let ports_ok = |a: &Abs| a.iter().all(|(t, x)| !(*t == 5 || *t == 6) || *x < LP_PORTS);
+    for i in 0..nops {
+        match r.n()? {
+            0 => {
+                let peer = r.peer()?;
+                let addrs = r.maddrs()?;
+                let _ = r.maddrs()?;
+                let _ = r.maddrs()?;
+                if !addrs.iter().all(ports_ok) {
+                    return None;
+                }
+                let op = AddOp { peer, addrs };
+                if i < nk {
+                    known.push(op);
+                } else {
+                    later.push(op);
+                }
+            }
+            5 => {
+                let a = r.maddr()?;
+                if i < nk || !later.is_empty() || !ports_ok(&a) {
+                    return None;
+                }
+                // /ip4/<loopback>/tcp/P for TCP, /ip4/<loopback>/tcp/P/ws for WebSocket
+                let shape_ok = match a.as_slice() {
+                    [(0, ip), (5, _)] => ip / 65536 == 1 && et,
+                    [(0, ip), (5, _), (7, 0)] => ip / 65536 == 1 && ew,
+                    _ => false,
+                };
+                if !shape_ok || listens.iter().any(|l| l[0] == a[0] && l[1] == a[1]) {
+                    return None;
+                }
+                listens.push(a);
+            }
+            _ => return None,
+        }
+    }
+    if r.i != c.len() || known.len() != nk {
+        return None;
+    }
+    for op in known.iter().chain(later.iter()) {
+        for a in &op.addrs {
+            real_of(w, a)?;
+        }
+    }
+    let mut abs_ports: Vec<u64> = listens.iter().map(|l| l[1].1).collect();
+    abs_ports.sort();
+    abs_ports.dedup();
+
+    let _ = take_evicted();
+    let _ = take_add_order();
+    let _ = take_add_calls();
+    let mut attempt = 0;
+    let (mut litep2p, ports) = loop {
+        attempt += 1;
+        let ports = PortMap(abs_ports.iter().map(|a| (*a, free_port())).collect());
+        let real = |a: &Abs| ports.real(&real_of(w, a).expect("checked"));
+        let mut builder = ConfigBuilder::new().with_keypair(w.keys[local as usize].clone());
+        if et {
+            builder = builder.with_tcp(litep2p::transport::tcp::config::Config {
+                listen_addresses: listens.iter().filter(|l| l.len() == 2).map(real).collect(),
+                ..Default::default()
+            });
+        }
+        if ew {
+            builder = builder.with_websocket(litep2p::transport::websocket::config::Config {
+                listen_addresses: listens.iter().filter(|l| l.len() == 3).map(real).collect(),
+                ..Default::default()
+            });
+        }
+        let config = builder
+            .with_known_addresses(
+                known.iter().map(|op| (w.peers[op.peer as usize], op.addrs.iter().map(real).collect::<Vec<_>>())),
+            )
+            .build();
+        match Litep2p::new(config) {
+            Ok(l) => break (l, ports),
+            Err(e) if attempt < 30 => {
+                // a listen port was taken in the meantime: other ports
+                let _ = (take_evicted(), take_add_order(), take_add_calls());
+                let _ = e;
+            }
+            Err(e) => panic!("Litep2p::new keeps failing: {e:?}"),
+        }
+    };
+    let abs = |m: &Multiaddr| abs_of(w, &ports.abs(m));
+    let store = |l: &Litep2p, peer: u64| -> Vec<(Abs, i32)> {
+        let mut v: Vec<(Abs, i32)> = l
+            .verif_transport_manager()
+            .verif_peer_addresses(&w.peers[peer as usize])
+            .unwrap_or_default()
+            .into_iter()
+            .map(|(a, s)| (abs(&a), s))
+            .collect();
+        v.sort_by_key(|(a, _)| sort_key(a));
+        v
+    };
+
+    // the configuration phase, call by call, from the logs of the hooks
+    let calls = take_add_calls();
+    let order = take_add_order();
+    let evicted = take_evicted();
+    assert!(calls.len() == known.len(), "one add_known_address call per configured entry");
+    let mut case = vec![nk as u64];
+    case.extend(header);
+    case.push(nops as u64);
+    let (mut o, mut total) = (0usize, 0usize);
+    for (i, op) in known.iter().enumerate() {
+        let (n, ev_from) = calls[i];
+        let ev_to = calls.get(i + 1).map(|c| c.1).unwrap_or(evicted.len());
+        total += n;
+        case.extend([0, op.peer]);
+        enc_list(&op.addrs, &mut case);
+        enc_list(&order[o..o + n].iter().map(&abs).collect::<Vec<_>>(), &mut case);
+        enc_list(&evicted[ev_from..ev_to].iter().map(&abs).collect::<Vec<_>>(), &mut case);
+        o += n;
+    }
+    assert!(total == order.len(), "insertion log and counts differ");
+    for l in &listens {
+        case.push(5);
+        enc_abs(l, &mut case);
+    }
+    let mut out = vec![2u64];
+    let mut l: Vec<Abs> =
+        litep2p.verif_transport_manager().verif_listen_addresses().iter().map(&abs).collect();
+    l.sort_by_key(sort_key);
+    enc_list(&l, &mut out);
+    for peer in 0..NPEERS {
+        dump(&store(&litep2p, peer), &mut out);
+    }
+    out.push(0);
+    for op in &later {
+        let real: Vec<Multiaddr> =
+            op.addrs.iter().map(|a| ports.real(&real_of(w, a).expect("checked"))).collect();
+        let n = litep2p.add_known_address(w.peers[op.peer as usize], real.into_iter());
+        let calls = take_add_calls();
+        assert!(calls.len() == 1 && calls[0].0 == n, "one call, the count it returned");
+        case.extend([0, op.peer]);
+        enc_list(&op.addrs, &mut case);
+        enc_list(&take_add_order().iter().map(&abs).collect::<Vec<_>>(), &mut case);
+        enc_list(&take_evicted().iter().map(&abs).collect::<Vec<_>>(), &mut case);
+        out.extend([0, n as u64, 0]);
+        dump(&store(&litep2p, op.peer), &mut out);
+    }
+    Some((case, out))
+}
+
 // ---------------------------------------------------------------- generator
 
 struct Gen<'a> {
@@ -971,14 +1479,26 @@ struct Gen<'a> {
     seq: u64,
     en_tcp: bool,
     en_ws: bool,
+    en_quic: bool,
     /// the codes of all constructible DialError variants
     codes: Vec<u64>,
     /// listen addresses registered so far
     listens: Vec<Abs>,
+    /// ports are drawn below this bound
+    max_port: u64,
+    /// concrete addresses at the edges of the special ranges
+    v4: std::rc::Rc<Vec<u64>>,
+    v6: std::rc::Rc<Vec<u64>>,
 }
 
 impl<'a> Gen<'a> {
     fn host(&mut self, allow_unspec: bool) -> Comp {
+        // one host in eight is a concrete address: a boundary of a special range or anything
+        if self.rng.chance(12) {
+            if let Some(h) = self.concrete_host() {
+                return h;
+            }
+        }
         let id = if self.rng.chance(70) { self.rng.below(4) } else { self.rng.below(300) };
         match self.rng.below(100) {
             0..=44 => {
@@ -1005,11 +1525,31 @@ impl<'a> Gen<'a> {
         }
     }
 
+    fn concrete_host(&mut self) -> Option<Comp> {
+        let h = match self.rng.below(6) {
+            0 | 1 => {
+                let i = self.rng.below(self.v4.len() as u64) as usize;
+                (12, self.v4[i])
+            }
+            2 => (12, self.rng.below(1 << 32)),
+            3 | 4 => {
+                let i = self.rng.below(self.v6.len() as u64) as usize;
+                (13, self.v6[i])
+            }
+            _ => {
+                let (pos, val) = if self.rng.chance(30) { (0, 0) } else { (self.rng.range(2, 7), self.rng.range(1, 65535)) };
+                (13, raw6_code(self.rng.below(65536), if self.rng.chance(50) { 0 } else { self.rng.below(65536) }, pos, val))
+            }
+        };
+        let ok = if h.0 == 12 { raw4_ok(h.1) } else { raw6_ok(h.1) };
+        ok.then_some(h)
+    }
+
     fn port(&mut self) -> u64 {
         if self.rng.chance(60) {
             self.rng.pick(&self.ports)
         } else {
-            self.rng.range(1, 65535)
+            self.rng.range(0, self.max_port)
         }
     }
 
@@ -1038,6 +1578,10 @@ impl<'a> Gen<'a> {
             _ => (2, id),
         };
         let mut a = vec![host, (5, self.rng.range(1000, 2000))];
+        if self.en_quic && (self.rng.chance(30) || !(self.en_tcp || self.en_ws)) {
+            a = vec![host, (6, self.rng.range(1000, 2000)), (9, 0), (10, peer)];
+            return a;
+        }
         let ws = if self.en_tcp && self.en_ws { self.rng.chance(30) } else { self.en_ws };
         if ws {
             a.push(if self.rng.chance(70) { (7, 0) } else { (8, 0) });
@@ -1194,7 +1738,7 @@ fn saturation_case(codes: &[u64]) -> Vec<u64> {
     op.extend([0, 0]);
     ops.push(op);
     ops.push(vec![3, peer, 64, 0]);
-    let mut c = vec![1, 0, 1, 1, 0, 0, 0, ops.len() as u64];
+    let mut c = vec![1, FQ, 1, 1, FQ, 0, 0, ops.len() as u64];
     for op in ops {
         c.extend(op);
     }
@@ -1219,7 +1763,9 @@ fn sweep_case(codes: &[u64], index: u64) -> Vec<u64> {
         // prior 1: a global address (untested score = the public bonus); otherwise private
         let host = if prior == 1 { (0, 3 * 65536 + id) } else { (0, 2 * 65536 + id) };
         let mut a = vec![host, (5, 1000 + i as u64)];
-        if i % 2 == 1 {
+        if FQ == 1 && i % 3 == 2 {
+            a = vec![host, (6, 1000 + i as u64), (9, 0)];
+        } else if i % 2 == 1 {
             a.push((7, 0));
         }
         a.push((10, peer));
@@ -1281,9 +1827,12 @@ fn sweep_case(codes: &[u64], index: u64) -> Vec<u64> {
     if path == 2 || path == 3 {
         // every stored address is handed to open(); attempt i fails with kind (i + shift) mod n
         for shift in [0usize, 7, 13] {
-            let mut op = vec![9, peer, if path == 2 { 0 } else { 999 }, codes.len() as u64];
+            let mut op = vec![DIAL_TAG, peer, if path == 2 { 0 } else { 999 }, codes.len() as u64];
             op.extend((0..codes.len()).map(|i| codes[(i + shift) % codes.len()]));
             op.extend([0, 0]);
+            if DIAL_TAG == 14 {
+                op.push(0);
+            }
             ops.push(op);
             ops.push(vec![3, peer, 64, 0]);
         }
@@ -1297,21 +1846,146 @@ fn sweep_case(codes: &[u64], index: u64) -> Vec<u64> {
     ops.push(op);
     ops.push(vec![3, peer, 5, 0]);
     ops.push(vec![3, peer, 64, 0]);
-    let mut c = vec![1, 0, 1, 1, 0, 0, 0, ops.len() as u64];
+    let mut c = vec![1, FQ, 1, 1, FQ, 0, 0, ops.len() as u64];
     for op in ops {
         c.extend(op);
     }
     c
 }
 
-fn gen_case(rng: &mut Rng, codes: &[u64], index: u64, thorough: bool) -> Vec<u64> {
+/// A Litep2p-level case: configuration (transports with loopback listen addresses, known
+/// addresses) and later `Litep2p::add_known_address` calls. The offered addresses include the
+/// node's own listen addresses under other peer ids, loopback aliases on the listen ports, fresh
+/// dialable addresses and arbitrary shapes; some cases configure more than 64 addresses for one peer.
+fn gen_lp_case(rng: &mut Rng, pools: &Pools) -> Vec<u64> {
+    let (en_tcp, en_ws) = match rng.below(4) {
+        0 => (true, false),
+        1 => (false, true),
+        _ => (true, true),
+    };
+    let mut g = Gen {
+        rng,
+        ports: [30, 31, 32],
+        known: vec![Vec::new(); NPEERS as usize],
+        seq: 0,
+        en_tcp,
+        en_ws,
+        en_quic: false,
+        codes: Vec::new(),
+        listens: Vec::new(),
+        max_port: LP_PORTS - 1,
+        v4: pools.0.clone(),
+        v6: pools.1.clone(),
+    };
+    let local = g.rng.below(4);
+    let nlisten = g.rng.pick(&[0u64, 1, 1, 2, 2, 3]);
+    let mut listens: Vec<Abs> = Vec::new();
+    for _ in 0..nlisten {
+        let ws = if en_tcp && en_ws { g.rng.chance(40) } else { en_ws };
+        let mut l = vec![(0u64, 65536 + g.rng.below(4)), (5u64, g.rng.pick(&[30u64, 31, 32]))];
+        if ws {
+            l.push((7, 0));
+        }
+        if !listens.iter().any(|x: &Abs| x[0] == l[0] && x[1] == l[1]) {
+            listens.push(l);
+        }
+    }
+    g.listens = listens.clone();
+    let fill = g.rng.chance(25);
+    let focus = g.rng.range(1, NPEERS - 1);
+    let offer = |g: &mut Gen, peer: u64| -> Abs {
+        match g.rng.below(10) {
+            0 | 1 if !g.listens.is_empty() => {
+                // a listen address of the node, under this or the local peer id (or none)
+                let i = g.rng.below(g.listens.len() as u64) as usize;
+                let mut a = g.listens[i].clone();
+                match g.rng.below(4) {
+                    0 => a.push((10, local)),
+                    1 => {}
+                    _ => a.push((10, peer)),
+                }
+                a
+            }
+            2 if !g.listens.is_empty() => {
+                // a loopback alias on a listen port
+                let i = g.rng.below(g.listens.len() as u64) as usize;
+                let mut a = g.listens[i].clone();
+                a[0] = if g.rng.chance(70) { (0, 65536 + g.rng.below(300)) } else { (1, 65536) };
+                a.push((10, peer));
+                a
+            }
+            3..=6 => g.fresh(peer),
+            _ => {
+                let mut a = g.addr(peer);
+                for x in a.iter_mut() {
+                    if (x.0 == 5 || x.0 == 6) && x.1 >= LP_PORTS {
+                        x.1 %= LP_PORTS;
+                    }
+                }
+                a
+            }
+        }
+    };
+    let mut ops: Vec<Vec<u64>> = Vec::new();
+    let nk = if fill { g.rng.range(14, 22) } else { g.rng.below(6) };
+    for _ in 0..nk {
+        let peer = if fill && g.rng.chance(85) { focus } else { (focus + g.rng.below(3)) % NPEERS };
+        let n = if fill { g.rng.range(3, 8) } else { g.rng.range(1, 5) };
+        let mut op = vec![0, peer, n];
+        for _ in 0..n {
+            let a = if fill && g.rng.chance(80) { g.fresh(peer) } else { offer(&mut g, peer) };
+            g.remember(peer, &a);
+            enc_abs(&a, &mut op);
+        }
+        op.extend([0, 0]);
+        ops.push(op);
+    }
+    for l in &listens {
+        let mut op = vec![5];
+        enc_abs(l, &mut op);
+        ops.push(op);
+    }
+    let nlater = g.rng.below(9);
+    for _ in 0..nlater {
+        let peer = if fill && g.rng.chance(70) { focus } else { (focus + g.rng.below(3)) % NPEERS };
+        let n = g.rng.range(1, 4);
+        let mut op = vec![0, peer, n];
+        for _ in 0..n {
+            let a = if g.rng.chance(25) { g.known_or_fresh(peer) } else { offer(&mut g, peer) };
+            enc_abs(&a, &mut op);
+        }
+        op.extend([0, 0]);
+        ops.push(op);
+    }
+    let mut c = vec![2, nk, 1, FQ, en_tcp as u64, en_ws as u64, 0, local, 0, ops.len() as u64];
+    for op in ops {
+        c.extend(op);
+    }
+    c
+}
+
+/// every LP_EVERY-th random case runs at the level of `Litep2p`
+const LP_EVERY: u64 = 8;
+
+type Pools = (std::rc::Rc<Vec<u64>>, std::rc::Rc<Vec<u64>>);
+
+fn gen_case(rng: &mut Rng, codes: &[u64], pools: &Pools, index: u64, thorough: bool) -> Vec<u64> {
     if index < NSWEEP {
         return sweep_case(codes, index);
     }
     let index = index - NSWEEP;
+    let nip = ip_sweep_cases() as u64;
+    if index < nip {
+        return ip_sweep_case(index as usize);
+    }
+    let index = index - nip;
+    if index % LP_EVERY == LP_EVERY - 1 {
+        return gen_lp_case(rng, pools);
+    }
     let ports = [30, 31, rng.range(1, 65535)];
-    let en_tcp = rng.chance(90);
+    let en_tcp = rng.chance(if FQ == 1 { 75 } else { 90 });
     let en_ws = rng.chance(65);
+    let en_quic = FQ == 1 && rng.chance(75);
     let mut g = Gen {
         rng,
         ports,
@@ -1319,13 +1993,17 @@ fn gen_case(rng: &mut Rng, codes: &[u64], index: u64, thorough: bool) -> Vec<u64
         seq: 0,
         en_tcp,
         en_ws,
+        en_quic,
         codes: codes.to_vec(),
         listens: Vec::new(),
+        max_port: 65535,
+        v4: pools.0.clone(),
+        v6: pools.1.clone(),
     };
     let local = g.rng.below(4);
     // max_outgoing_connections: none, or 0..=8 (encoded +1)
     let max_out = if g.rng.chance(30) { 0 } else { 1 + g.rng.pick(&[0u64, 1, 2, 3, 3, 5, 8, 8]) };
-    let mut c = vec![1, 0, en_tcp as u64, en_ws as u64, 0, local, max_out];
+    let mut c = vec![1, FQ, en_tcp as u64, en_ws as u64, en_quic as u64, local, max_out];
     let small = index < 30;
     // "fill" cases concentrate on one peer so that the bound of 64 is crossed
     let fill = !small && g.rng.chance(50);
@@ -1356,15 +2034,26 @@ fn gen_case(rng: &mut Rng, codes: &[u64], index: u64, thorough: bool) -> Vec<u64
         let r = g.rng.below(100);
         let add_single = if fill { 40 } else { 30 };
         if r < add_single {
-            let a = if (fill && g.rng.chance(70)) || (clean && g.rng.chance(50)) { g.fresh(peer) } else { g.addr(peer) };
-            g.remember(peer, &a);
-            c.extend([0, peer, 1]);
+            let mut a = if (fill && g.rng.chance(70)) || (clean && g.rng.chance(50)) { g.fresh(peer) } else { g.addr(peer) };
+            // a quarter of the additions come through a protocol's TransportService, half of those
+            // without the trailing peer id (the service appends it)
+            let service = g.rng.chance(25);
+            if service && g.rng.chance(50) && a.last() == Some(&(10, peer)) {
+                a.pop();
+            }
+            let mut full = a.clone();
+            if service && !matches!(full.last(), Some((10, _))) {
+                full.push((10, peer));
+            }
+            g.remember(peer, &full);
+            c.extend([if service { 13 } else { 0 }, peer, 1]);
             enc_abs(&a, &mut c);
             c.extend([0, 0]);
         } else if r < add_single + 12 {
             // several addresses in one call (evictions included: the insertion order is observed)
             let n = g.rng.range(2, 6);
-            c.extend([0, peer, n]);
+            let service = g.rng.chance(25);
+            c.extend([if service { 13 } else { 0 }, peer, n]);
             let mut prev: Option<Abs> = None;
             for _ in 0..n {
                 let a = match &prev {
@@ -1372,6 +2061,10 @@ fn gen_case(rng: &mut Rng, codes: &[u64], index: u64, thorough: bool) -> Vec<u64
                     _ if fill && g.rng.chance(60) => g.fresh(peer),
                     _ => g.addr(peer),
                 };
+                let mut a = a;
+                if service && g.rng.chance(40) && a.last() == Some(&(10, peer)) {
+                    a.pop();
+                }
                 g.remember(peer, &a);
                 enc_abs(&a, &mut c);
                 prev = Some(a);
@@ -1438,25 +2131,35 @@ fn gen_case(rng: &mut Rng, codes: &[u64], index: u64, thorough: bool) -> Vec<u64
                 _ => g.addr(peer),
             };
             g.remember(peer, &a);
-            let res = if g.rng.chance(35) { 0 } else { g.err_code() + 1 };
-            c.push(10);
-            enc_abs(&a, &mut c);
-            c.extend([res, 0]);
+            if g.rng.chance(12) {
+                // the transport refuses to start the dial
+                c.push(15);
+                enc_abs(&a, &mut c);
+                c.push(0);
+            } else {
+                let res = if g.rng.chance(35) { 0 } else { g.err_code() + 1 };
+                c.push(10);
+                enc_abs(&a, &mut c);
+                c.extend([res, 0]);
+            }
         } else {
             // dial(peer): half of the attempts fail completely, the others succeed somewhere;
             // the failing attempts time out (tag 7) or fail with kinds of every sort (tag 9)
             let outcome = if g.rng.chance(50) { 0 } else { g.rng.range(1, 200) };
             let p = if g.rng.chance(4) { g.rng.below(NPEERS) } else { peer };
-            if g.rng.chance(25) {
+            if FQ == 0 && g.rng.chance(25) {
                 c.extend([7, p, outcome, 0, 0]);
             } else {
-                let n = g.rng.range(1, 6);
-                c.extend([9, p, outcome, n]);
+                let n = g.rng.range(if FQ == 1 { 0 } else { 1 }, 6);
+                c.extend([DIAL_TAG, p, outcome, n]);
                 for _ in 0..n {
                     let e = g.err_code();
                     c.push(e);
                 }
                 c.extend([0, 0]);
+                if DIAL_TAG == 14 {
+                    c.push(0);
+                }
             }
         }
     }
@@ -1473,6 +2176,7 @@ pub fn main(args: &Args) {
     let mut rng = Rng::new(seed);
     let w = World::new();
     let codes = all_error_codes(&w);
+    let pools: Pools = (std::rc::Rc::new(v4_boundaries()), std::rc::Rc::new(v6_boundaries()));
 
     let run = |c: &[u64]| -> (Vec<u64>, Vec<u64>) {
         match catch_unwind(AssertUnwindSafe(|| run_case(&rt, &w, c))) {
@@ -1498,7 +2202,7 @@ pub fn main(args: &Args) {
     }
     for i in 0..ncases {
         let mut r = rng.fork();
-        let c = gen_case(&mut r, &codes, i, thorough);
+        let c = gen_case(&mut r, &codes, &pools, i, thorough);
         let (case, t) = run(&c);
         out.emit(&case, &t);
     }
